@@ -432,11 +432,11 @@ class Gen:
             else:
                 nm_end = f.kw + re.match(r'fn\s+[A-Za-z_][A-Za-z0-9_]*', b[f.kw:]).end()
                 edits.append((nm_end, nm_end, '<' + ', '.join(new_generics) + '>'))
-        if c is None and not self.canary:
+        if c is None and not (self.canary and f.has_body):
             return edits
         retname = (c.ret if c and c.ret else 'res')
         has_spec = c is not None and (c.requires or c.ensures)
-        want_ret = f.ret_span is not None and (has_spec or self.canary)
+        want_ret = f.ret_span is not None and has_spec
         if want_ret and not (f.ctx_kind == 'impl' and f.ctx_trait and not (c and c.ensures)):
             r0, r1 = f.ret_span
             edits.append((r0, r1, '(%s: %s)' % (retname, text[r0:r1])))
@@ -454,10 +454,12 @@ class Gen:
                 spec_lines.append(('    ensures', None))
                 for lab, t in c.ensures:
                     spec_lines.append(('        ' + t.replace('\n', '\n        ') + ',', lab))
-        if self.canary and f.has_body and not (c and c.external_body) and not (f.ctx_kind == 'impl' and f.ctx_trait):
-            if not (c and c.ensures):
-                spec_lines.append(('    ensures', None))
-            spec_lines.append(('        false,', {'props': [], 'name': 'canary:' + f.key}))
+        if self.canary and f.has_body and not (c and c.external_body):
+            # vacuity canary: `assert(false)` as the first statement must FAIL; if it verifies, the function's
+            # preconditions (own or inherited from a trait) or the global axioms are contradictory.  It is an
+            # assertion inside the body, so callers are not affected.
+            edits.append((f.body_open + 1, f.body_open + 1,
+                          self.render_labelled([(' proof { assert(false); }', {'props': [], 'name': 'canary:' + f.key})], f.key)))
         if spec_lines:
             ins = '\n' + self.render_labelled(spec_lines, f.key) + '\n'
             pos = f.sig_end
@@ -720,6 +722,9 @@ class Gen:
         head = '#![allow(unused_imports, dead_code, unused_variables, unused_mut, unused_parens, unused_braces, non_snake_case, unused_assignments, unused_unsafe)]\nuse vstd::prelude::*;\n'
         # labels inside prelude / spec (lemmas) are processed too
         pre = self.render_static(prelude_text, 'vf_prelude')
+        if self.canary:
+            spec_text = spec_text.replace('//@@GENERATED_SPEC_TABLE@@', '//@@GENERATED_SPEC_TABLE@@') 
+            spec_text = re.sub(r'\} // verus!\n\} // mod vf_spec', 'pub proof fn vf_global_canary()\n    ensures false, //[C00:canary:<global axioms>]\n{\n    broadcast use group_spec_seq;\n    broadcast use crate::md5::axiom_md5_len;\n}\n} // verus!\n} // mod vf_spec', spec_text)
         spec = self.render_static(spec_text, 'vf_spec')
         image = head + pre + '\n' + spec + '\n' + body + '\nfn main() {}\n'
         # line map
